@@ -542,7 +542,7 @@ fn main() {
     //     instant, again and again with new rulesets — whatever a ruleset prepares lazily on first use is prepared under
     //     contention, and every thread must still get the sequential outcomes
     {
-        let n_fresh = if quick { 300 } else { 3000 };
+        let n_fresh = if quick { 3000 } else { 30000 };
         let names: Vec<&'static str> = vec!["g00", "g01", "g02", "g03", "g04", "g05", "g06", "g07", "g08", "g09", "g10", "g11", "g12", "g13", "g14", "g15", "g16", "g17", "g18", "g19", "g20", "g21", "g22", "g23"];
         let build = || {
             let mut b = ruleset();
@@ -557,40 +557,73 @@ fn main() {
                 .build()
         };
         let want = enc(&rt1.block_on(build().evaluate(&inputs[1])));
+        let facts7: Value = {
+            use serde::Serialize;
+            inputs[1].serialize(reval::value::ser::ValueSerializer).expect("facts")
+        };
         let mut bad = 0usize;
-        for _ in 0..n_fresh {
-            let rs7 = Arc::new(build());
-            let barrier = Arc::new(std::sync::Barrier::new(8));
-            let hs: Vec<_> = (0..8)
-                .map(|_| {
-                    let rs7 = rs7.clone();
-                    let barrier = barrier.clone();
-                    let inp = inputs[1].clone();
-                    std::thread::spawn(move || {
-                        let rt = tokio::runtime::Builder::new_current_thread().build().unwrap();
-                        barrier.wait();
-                        enc(&rt.block_on(rs7.evaluate(&inp)))
-                    })
-                })
-                .collect();
-            for h in hs {
-                runs += 1;
-                match h.join() {
-                    Ok(o) if o == want => {}
-                    Ok(o) => {
-                        bad += 1;
-                        if bad <= 2 {
-                            mismatches.push(format!("first use of a freshly built ruleset by 8 threads at once: got {} want {}", o.chars().take(200).collect::<String>(), want.chars().take(200).collect::<String>()));
+        // 8 persistent threads; per round they spin on a generation counter, then all evaluate the SAME fresh ruleset at once
+        let n_threads = 8usize;
+        let slot: Arc<std::sync::RwLock<Option<Arc<RuleSet>>>> = Arc::new(std::sync::RwLock::new(None));
+        let generation = Arc::new(AtomicUsize::new(0));
+        let ready = Arc::new(AtomicUsize::new(0));
+        let done = Arc::new(AtomicUsize::new(0));
+        let results: Arc<std::sync::Mutex<Vec<String>>> = Arc::new(std::sync::Mutex::new(vec![]));
+        let stop = Arc::new(std::sync::atomic::AtomicBool::new(false));
+        let hs: Vec<_> = (0..n_threads)
+            .map(|_| {
+                let (slot, generation, ready, done, results, stop, facts7) = (slot.clone(), generation.clone(), ready.clone(), done.clone(), results.clone(), stop.clone(), facts7.clone());
+                std::thread::spawn(move || {
+                    let rt = tokio::runtime::Builder::new_current_thread().build().unwrap();
+                    let mut seen = 0usize;
+                    loop {
+                        ready.fetch_add(1, Ordering::SeqCst);
+                        // spin until the next generation is published
+                        let t0 = std::time::Instant::now();
+                        while generation.load(Ordering::SeqCst) == seen {
+                            if stop.load(Ordering::SeqCst) {
+                                return;
+                            }
+                            if t0.elapsed().as_secs() > 30 {
+                                return;
+                            }
+                            std::hint::spin_loop();
                         }
+                        seen = generation.load(Ordering::SeqCst);
+                        let rs = slot.read().unwrap().clone().unwrap();
+                        let out = std::panic::catch_unwind(std::panic::AssertUnwindSafe(|| enc(&rt.block_on(rs.evaluate_value(&facts7))))).unwrap_or_else(|_| "PANIC".to_string());
+                        results.lock().unwrap().push(out);
+                        done.fetch_add(1, Ordering::SeqCst);
                     }
-                    Err(_) => {
-                        bad += 1;
-                        if bad <= 2 {
-                            mismatches.push("first use of a freshly built ruleset by 8 threads at once: a thread panicked".to_string());
-                        }
+                })
+            })
+            .collect();
+        for round in 0..n_fresh {
+            // wait until every thread spins at the gate
+            let t0 = std::time::Instant::now();
+            while ready.load(Ordering::SeqCst) < n_threads * (round + 1) && t0.elapsed().as_secs() < 30 {
+                std::hint::spin_loop();
+            }
+            *slot.write().unwrap() = Some(Arc::new(build()));
+            generation.fetch_add(1, Ordering::SeqCst);
+            let t0 = std::time::Instant::now();
+            while done.load(Ordering::SeqCst) < n_threads * (round + 1) && t0.elapsed().as_secs() < 30 {
+                std::thread::yield_now();
+            }
+            for o in results.lock().unwrap().drain(..) {
+                runs += 1;
+                if o != want {
+                    bad += 1;
+                    if bad <= 2 {
+                        mismatches.push(format!("first use of a freshly built ruleset by {} threads at once (round {}): got {} want {}", n_threads, round, o.chars().take(200).collect::<String>(), want.chars().take(200).collect::<String>()));
                     }
                 }
             }
+        }
+        stop.store(true, Ordering::SeqCst);
+        generation.fetch_add(1, Ordering::SeqCst);
+        for h in hs {
+            let _ = h.join();
         }
         if bad > 2 {
             mismatches.push(format!("… and {} more first-use evaluations differ", bad - 2));
